@@ -65,7 +65,7 @@ class StoreModel:
         kind, k = op[0], op[1]
         if kind == "store":
             return k != "" and k not in self.dirs and not any(a in self.files for a in ancestors(k))
-        if kind in ("store_metadata", "store_metadata_rmw", "remove"):
+        if kind in ("store_metadata", "store_metadata_rmw", "remove", "store_rmw"):
             return k in self.files
         if kind == "makedir":
             return k != "" and k not in self.files and not any(a in self.files for a in ancestors(k))
@@ -83,6 +83,10 @@ class StoreModel:
             for a in ancestors(k):
                 self.dirs.add(a)
             self.files[k] = (op[2], dict(op[3]))
+        elif kind == "store_rmw":
+            m = dict(self.files[k][1])
+            m.update(op[3])
+            self.files[k] = (op[2], m)
         elif kind == "store_metadata":
             self.files[k] = (self.files[k][0], dict(op[2]))
         elif kind == "store_metadata_rmw":
@@ -104,13 +108,13 @@ class StoreModel:
             self.dirs.discard(k)
 
 
-MUTATORS = ["store", "store_metadata", "store_metadata_rmw", "remove", "makedir", "removedir", "removedir_recursive"]
+MUTATORS = ["store", "store_rmw", "store_metadata", "store_metadata_rmw", "remove", "makedir", "removedir", "removedir_recursive"]
 
 
 def gen_history(rnd, model, universe, n, weights=None, avoid=None, tag="v"):
     """Draw n operations, each satisfying the model's precondition in the state it is applied to.
     The model passed in is advanced. avoid(op, model) -> True vetoes an operation (known-mechanism avoidance)."""
-    weights = weights or {"store": 6, "store_metadata": 2, "store_metadata_rmw": 2, "remove": 3, "makedir": 2,
+    weights = weights or {"store": 6, "store_rmw": 2, "store_metadata": 2, "store_metadata_rmw": 2, "remove": 3, "makedir": 2,
                           "removedir": 2, "removedir_recursive": 2}
     kinds = [k for k, w in weights.items() for _ in range(w)]
     hist = []
@@ -128,6 +132,16 @@ def gen_history(rnd, model, universe, n, weights=None, avoid=None, tag="v"):
             op = ["store", k, data, {"x_user": "%s%d" % (tag, counter), "x_list": [counter, k]}]
             if rnd.random() < 0.3:
                 op[3]["title"] = "T%d" % counter
+        elif kind == "store_rmw":
+            # overwrite using the metadata read back from the store; often with data of the same length
+            if k not in model.files:
+                continue
+            old = model.files[k][0]
+            if rnd.random() < 0.6 and len(old) > 0:
+                data = bytes((b + 1 + counter) % 256 for b in old)
+            else:
+                data = ("%s%d~%s" % (tag, counter, k)).encode()
+            op = ["store_rmw", k, data, {"x_rmw_store": "%sw%d" % (tag, counter)}]
         elif kind == "store_metadata":
             op = ["store_metadata", k, {"x_user": "%sm%d" % (tag, counter), "x_only": counter}]
         elif kind == "store_metadata_rmw":
@@ -145,14 +159,14 @@ def gen_history(rnd, model, universe, n, weights=None, avoid=None, tag="v"):
 
 def op_to_json(op):
     o = list(op)
-    if o[0] == "store":
+    if o[0] in ("store", "store_rmw"):
         o[2] = o[2].decode("latin-1")
     return o
 
 
 def op_from_json(o):
     o = list(o)
-    if o[0] == "store":
+    if o[0] in ("store", "store_rmw"):
         o[2] = o[2].encode("latin-1")
     return o
 
@@ -161,6 +175,10 @@ def apply_real(store, op):
     kind, k = op[0], op[1]
     if kind == "store":
         store.store(k, op[2], copy.deepcopy(op[3]))
+    elif kind == "store_rmw":
+        m = copy.deepcopy(store.get_metadata(k))
+        m.update(copy.deepcopy(op[3]))
+        store.store(k, op[2], m)
     elif kind == "store_metadata":
         store.store_metadata(k, copy.deepcopy(op[2]))
     elif kind == "store_metadata_rmw":
